@@ -152,8 +152,39 @@ func c20join(r *Run, col string, row int) {
 	if err == nil {
 		res = "ok " + hx(s)
 	}
-	r.Op(fmt.Sprintf("join %s %d", hx(col), row), res)
+	ln := r.Op(fmt.Sprintf("join %s %d", hx(col), row), res)
 	r.Case(fmt.Sprintf("join:%s:%d", col, row), err == nil)
+	// direct oracle: "SplitCellName/JoinCellName agree with" the cell codecs over the whole grid.
+	// For a column name the column codec accepts and a row inside the grid, JoinCellName must
+	// succeed, give the name CoordinatesToCellName gives, and SplitCellName must give the parts back.
+	replay := fmt.Sprintf("join %s %d", hx(col), row)
+	cn, cerr := xl.ColumnNameToNumber(col)
+	if cerr == nil && row >= 1 && row <= 1048576 {
+		want, werr := xl.CoordinatesToCellName(cn, row)
+		if err != nil || werr != nil || s != want {
+			r.Fail("join:disagrees-with-cell-codec", fmt.Sprintf("JoinCellName(%q,%d) = %q,%v but CoordinatesToCellName(%d,%d) = %q,%v", col, row, s, err, cn, row, want, werr), ln, replay)
+			return
+		}
+		bc, br, berr := xl.SplitCellName(s)
+		if berr != nil || br != row || !strings.EqualFold(bc, col) {
+			r.Fail("join:split-roundtrip", fmt.Sprintf("SplitCellName(JoinCellName(%q,%d)=%q) = %q,%d,%v", col, row, s, bc, br, berr), ln, replay)
+		}
+	} else if err == nil && (row < 1 || cerr != nil && !c20lettersOnly(col)) {
+		r.Fail("join:accept-invalid", fmt.Sprintf("JoinCellName(%q,%d) = %q accepted", col, row, s), ln, replay)
+	}
+}
+
+func c20lettersOnly(s string) bool {
+	if s == "" {
+		return false
+	}
+	for i := 0; i < len(s); i++ {
+		c := s[i] | 0x20
+		if c < 'a' || c > 'z' {
+			return false
+		}
+	}
+	return true
 }
 
 func c20rng(r *Run, s string) {
@@ -473,6 +504,12 @@ func runC20(r *Run, rng *Rng, replay string) {
 			c20rng(r, n1+":"+n2)
 		}
 	}
+	// 5b. JoinCellName / SplitCellName on the boundary grid
+	for _, cn := range []string{"A", "a", "Z", "AA", "az", "ZZ", "AAA", "XFC", "XFD", "xfd"} {
+		for _, ro := range []int{1, 2, 9, 10, 99999, 100000, 1048575, 1048576, 1048577, 0, -1} {
+			c20join(r, cn, ro)
+		}
+	}
 	// 6. spellings
 	for i := 0; i < 60; i++ {
 		c, ro := rng.Range(1, 60), rng.Range(1, 40)
@@ -549,6 +586,9 @@ func c20replay(r *Run, path string) {
 			c20n2c(r, n)
 		case "split":
 			c20split(r, unhx(w[1]))
+		case "join":
+			ro, _ := strconv.Atoi(w[2])
+			c20join(r, unhx(w[1]), ro)
 		case "spell":
 			c20spell(r, unhx(w[1]))
 		case "api":
